@@ -13,6 +13,9 @@ CONF = {
     "go": [
         {"pkg": "apis/extension", "test": "TestVerifC19Codec", "trace": {"module": "CodecTrace", "cfg": "Trace_Codec.cfg"},
          "selftest_keys": ("y", "y2")},
+        # quota part: QuotaAccounting + Restart action; the fresh manager is fed the persisted objects only
+        {"pkg": "pkg/scheduler/plugins/elasticquota/core", "test": "TestVerifC19Quota", "family": "Quota", "uses_script": False,
+         "trace": {"module": "QuotaAccountingTrace", "cfg": "Trace_C01.cfg"}},
     ],
     "trace": {"module": "CodecTrace", "cfg": "Trace_Codec.cfg"},
     "signature": sig,
